@@ -176,3 +176,10 @@ Qed.
 Theorem cv_contents : forall ops,
   Permutation (final cv_step [] ops ++ cv_handed [] ops) (v_inserted ops).
 Proof. intros. apply (cv_contents_gen ops []). Qed.
+
+Theorem cls_ins_placement : forall e ys, StronglySorted ele ys ->
+  Permutation (cls_ins ekey e ys) (e :: ys) /\ map ekey (cls_ins ekey e ys) = map ekey (v_ins e ys).
+Proof.
+  intros e ys Hs. split; [exact (cls_ins_perm e ys)|].
+  rewrite v_ins_std. exact (cls_ins_keys elem ekey e ys Hs).
+Qed.
